@@ -68,15 +68,15 @@ impl Block for SlowPass {
 /// Float source that emits its data in the given chunk sizes, one chunk per work() call.
 #[derive(rustradio_macros::Block)]
 #[rustradio(new)]
-struct ChunkSource {
+struct ChunkSource<T: Copy> {
     #[rustradio(out)]
-    dst: rustradio::stream::WriteStream<rustradio::Float>,
-    data: Vec<rustradio::Float>,
+    dst: rustradio::stream::WriteStream<T>,
+    data: Vec<T>,
     chunks: Vec<usize>,
     pos: usize,
     k: usize,
 }
-impl Block for ChunkSource {
+impl<T: Copy> Block for ChunkSource<T> {
     fn work(&mut self) -> Result<BlockRet> {
         if self.pos >= self.data.len() {
             return Ok(BlockRet::EOF);
@@ -98,12 +98,14 @@ impl Block for ChunkSource {
 }
 
 enum Port {
+    C(ReadStream<rustradio::Complex>),
     F(ReadStream<rustradio::Float>),
     U8(ReadStream<u8>),
     Big(ReadStream<Big>),
     Pkt(NCReadStream<Vec<u8>>),
 }
 enum SinkStore {
+    C(rustradio::vector_sink::Hook<rustradio::Complex>),
     F(rustradio::vector_sink::Hook<rustradio::Float>),
     U8(rustradio::vector_sink::Hook<u8>),
     Big(rustradio::vector_sink::Hook<Big>),
@@ -113,6 +115,8 @@ impl SinkStore {
     fn data(&self) -> Vec<i64> {
         match self {
             // floats: integer-valued up to rounding (FFT filter on integer data)
+            // complex with real-valued data: the real part, if the imaginary part is (numerically) zero
+            SinkStore::C(h) => h.data().samples().iter().map(|v| if v.re.is_finite() && (v.re - v.re.round()).abs() < 1e-3 && v.im.abs() < 1e-3 { v.re.round() as i64 } else { crate::bench::NONUM }).collect(),
             SinkStore::F(h) => h.data().samples().iter().map(|v| if v.is_finite() && (v - v.round()).abs() < 1e-3 { v.round() as i64 } else { crate::bench::NONUM }).collect(),
             SinkStore::U8(h) => h.data().samples().iter().map(|v| *v as i64).collect(),
             SinkStore::Big(h) => h.data().samples().iter().map(|v| v.val().map(|x| x as i64).unwrap_or(crate::bench::NONUM)).collect(),
@@ -160,6 +164,23 @@ fn build(desc: &Value) -> std::result::Result<Built, String> {
                 let chunks: Vec<usize> = n["p"]["chunks"].as_array().map(|a| a.iter().map(|v| v.as_u64().unwrap_or(1) as usize).collect()).unwrap_or_default();
                 let (b, o) = ChunkSource::new(data, chunks, 0, 0);
                 one!(b, Port::F(o))
+            }
+            ("src_c", None, None) => {
+                let data: Vec<rustradio::Complex> = n["p"]["data"].as_array().ok_or("data")?.iter().map(|v| rustradio::Complex::new(v.as_i64().unwrap_or(0) as rustradio::Float, 0.0)).collect();
+                let chunks: Vec<usize> = n["p"]["chunks"].as_array().map(|a| a.iter().map(|v| v.as_u64().unwrap_or(1) as usize).collect()).unwrap_or_default();
+                let (b, o) = ChunkSource::new(data, chunks, 0, 0);
+                one!(b, Port::C(o))
+            }
+            ("fftfiltc", Some(Port::C(r)), None) => {
+                let taps: Vec<rustradio::Complex> = n["p"]["taps"].as_array().ok_or("taps")?.iter().map(|v| rustradio::Complex::new(v.as_i64().unwrap_or(0) as rustradio::Float, 0.0)).collect();
+                let (b, o) = FftFilter::new(r, &taps);
+                one!(b, Port::C(o))
+            }
+            ("sink", Some(Port::C(r)), None) => {
+                let s = VectorSink::new(r, 1 << 30);
+                sinks.push((ix + 1, SinkStore::C(s.hook())));
+                blocks.push(Some(Box::new(s)));
+                ports.push(vec![]);
             }
             ("fftfiltf", Some(Port::F(r)), None) => {
                 let taps: Vec<rustradio::Float> = n["p"]["taps"].as_array().ok_or("taps")?.iter().map(|v| v.as_i64().unwrap_or(0) as rustradio::Float).collect();
